@@ -386,19 +386,8 @@ func checkVerbatim(w *World, r *Report, tokenT types.Type, textKind types.Object
 	}
 	// the handler registered for the verbatim tag
 	var handler *ast.FuncDecl
-	for _, d := range w.sortedDecls() {
-		ast.Inspect(d.Body, func(n ast.Node) bool {
-			kv, ok := n.(*ast.KeyValueExpr)
-			if !ok {
-				return true
-			}
-			if tv := w.Info.Types[kv.Key]; tv.Value != nil && tv.Value.Kind() == constant.String && constant.StringVal(tv.Value) == "verbatim" {
-				if f, ok := w.Info.Uses[identOf(kv.Value)].(*types.Func); ok && w.decls[f] != nil {
-					handler = w.decls[f]
-				}
-			}
-			return true
-		})
+	if h := w.tagHandlers()["verbatim"]; h != nil {
+		handler = w.decls[h]
 	}
 	if handler == nil {
 		cannotDecide("no block handler is registered for the verbatim tag")
@@ -885,16 +874,37 @@ func checkScannerContextRestored(w *World, r *Report) {
 		if len(switches) == 0 {
 			continue
 		}
-		// does the function save the old source? (a load of .source before the switch)
+		// does the function save the old source? (a load of .source — here or in a helper it
+		// calls — before the switch)
 		saves := false
+		before := func(in ssa.Instruction) bool {
+			for _, sw := range switches {
+				if in.Block() == sw.Block() && instrIndex(in) < instrIndex(sw) || in.Block() != sw.Block() && in.Block().Dominates(sw.Block()) {
+					return true
+				}
+			}
+			return false
+		}
+		loadsSource := func(g *ssa.Function) bool {
+			found := false
+			instrsOf(g, func(x ssa.Instruction) {
+				if u, ok := x.(*ssa.UnOp); ok {
+					if _, ok := fieldLoad(u, "ZeroAllocTokenizer", "source"); ok {
+						found = true
+					}
+				}
+			})
+			return found
+		}
 		instrsOf(fn, func(in ssa.Instruction) {
 			if u, ok := in.(*ssa.UnOp); ok {
-				if _, ok := fieldLoad(u, "ZeroAllocTokenizer", "source"); ok {
-					for _, sw := range switches {
-						if u.Block() == sw.Block() && instrIndex(u) < instrIndex(sw) || u.Block() != sw.Block() && u.Block().Dominates(sw.Block()) {
-							saves = true
-						}
-					}
+				if _, ok := fieldLoad(u, "ZeroAllocTokenizer", "source"); ok && before(in) {
+					saves = true
+				}
+			}
+			if c, ok := in.(*ssa.Call); ok && before(in) {
+				if g := c.Call.StaticCallee(); g != nil && isTwigFn(g) && len(g.Blocks) > 0 && g.Signature.Results().Len() > 0 && loadsSource(g) {
+					saves = true
 				}
 			}
 		})
@@ -909,8 +919,28 @@ func checkScannerContextRestored(w *World, r *Report) {
 					return
 				}
 				restored := func(x ssa.Instruction) bool {
-					st, ok := isSrcStore(x)
-					return ok && st != sw
+					if st, ok := isSrcStore(x); ok {
+						return st != sw
+					}
+					// a restoring helper: stores the source on every path to its returns
+					if c, ok := x.(ssa.CallInstruction); ok {
+						if _, isDefer := x.(*ssa.Defer); isDefer {
+							return false
+						}
+						if g := c.Common().StaticCallee(); g != nil && isTwigFn(g) && len(g.Blocks) > 0 && g != fn {
+							all, nret := true, 0
+							instrsOf(g, func(y ssa.Instruction) {
+								if _, isRet := y.(*ssa.Return); isRet {
+									nret++
+									if f, _ := existsPathAvoiding(g, y, func(z ssa.Instruction) bool { _, ok := isSrcStore(z); return ok }, nil); f {
+										all = false
+									}
+								}
+							})
+							return all && nret > 0
+						}
+					}
+					return false
 				}
 				found, path := existsPathFromAvoiding(fn, sw, in, restored, nil)
 				if found {
